@@ -200,6 +200,21 @@ Fixpoint turns (s : server) (sched : list (list bool)) : server * bool :=
   end.
 
 (* ------------------------------------------------------------------ *)
+(** * the floor of the soft stop, counted from the slab ([listen_slots]) *)
+
+(** the slab as [shut_down_sessions] sees it: per entry the protocol (position in [enum Protocol]) and whether
+    [shutting_down()] says the session can be closed now *)
+Definition slab := list (nat * bool).
+Definition is_permanent (e : nat * bool) : bool := existsb (Nat.eqb (fst e)) permanent_protocols.
+Definition is_client (e : nat * bool) : bool := existsb (Nat.eqb (fst e)) client_protocols.
+Definition stays (e : nat * bool) : bool := negb (snd e).
+(** [listen_slots]: counted from the slab after the closable sessions were closed *)
+Definition listen_slots (sl : slab) : nat := length (filter is_permanent sl).
+(** one turn of a stopping server over a slab: the floor is recomputed from what is left *)
+Definition slab_turn (sl : slab) (id : nat) (ans : list nat) : server * bool :=
+  shut_down_sessions (mksrv (Some id) (listen_slots (filter stays sl)) (map snd sl) false ans).
+
+(* ------------------------------------------------------------------ *)
 (** * the source's call order (C10/Gen.v: [return_steps], [shutdown_steps]), interpreted *)
 
 (** [Server::return_listen_sockets], step by step, on the holders of one listening socket *)
